@@ -162,6 +162,10 @@ def generated_cases(chk):
         roots, files, tag = c10_gen.multi_fault(r)
         out.append(Case("g-c10/" + tag, roots, files))
         out[-1].fresh_k = 8
+    for _ in range(50 * scale):
+        roots, files, tag = c10_gen.bankdef_fields(r)
+        out.append(Case("g-c10/" + tag, roots, files))
+        out[-1].fresh_k = 8
     # generators of the other properties
     try:
         import c13_gen
